@@ -362,3 +362,72 @@ Proof.
     destruct (String.eqb (p_lp p) d),
       (String.eqb PM (pm_fee_collector (pm_cfg (w_pm w)))), (String.eqb PM (addr_or_default w (Some (addr_or_default w r sender)) PM)); lia.
 Qed.
+
+(* ---------- routes ---------- *)
+Lemma leaves_eff_app c tf l1 l2 a d : leaves_eff c tf (l1 ++ l2) a d = leaves_eff c tf l1 a d + leaves_eff c tf l2 a d.
+Proof. induction l1 as [|x r IH]; cbn [app leaves_eff]; [lia | rewrite IH; lia]. Qed.
+
+Lemma swap_fee_msgs_eff tf cfg ask sc d :
+  pm_fee_collector cfg <> PM ->
+  leaves_eff PM tf (swap_fee_msgs cfg ask sc) PM d = - ind (String.eqb ask d) (sc_burn_fee sc + sc_protocol_fee sc).
+Proof.
+  intros Hfc. assert (E : String.eqb PM (pm_fee_collector cfg) = false) by (apply String.eqb_neq; congruence).
+  unfold swap_fee_msgs. rewrite leaves_eff_app.
+  destruct (sc_burn_fee sc =? 0) eqn:E1, (sc_protocol_fee sc =? 0) eqn:E2;
+    cbn [leaves_eff leaf_eff plain sm_msg camt denom_of amount_of fst snd]; rewrite ?String.eqb_refl, ?E; unfold ind;
+    destruct (String.eqb ask d); lia.
+Qed.
+
+Lemma perform_swap_cfg s o a pid bl ms s' sc : perform_swap s o a pid bl ms = Ok (s', sc) -> pm_cfg s' = pm_cfg s.
+Proof.
+  intros H. apply perform_swap_spec in H. destruct H as (p & oi & ai & oc & ac & od & ad & _ & _ & _ & _ & _ & _ & ->). reflexivity.
+Qed.
+
+Lemma route_loop_exact tf ops : forall s prev ms fm s' out fms d,
+  pm_fee_collector (pm_cfg s) <> PM ->
+  route_loop s prev ops ms fm = Ok (s', out, fms) ->
+  res s' d - leaves_eff PM tf fms PM d + ind (String.eqb (denom_of out) d) (amount_of out)
+    = res s d - leaves_eff PM tf fm PM d + ind (String.eqb (denom_of prev) d) (amount_of prev).
+Proof.
+  induction ops as [|o r IH]; intros s prev ms fm s' out fms d Hfc H.
+  - cbn in H. inversion H; subst. reflexivity.
+  - apply route_loop_cons in H. destruct H as (s1 & sc & Hps & H).
+    destruct (perform_swap_res _ _ _ _ _ _ _ _ d Hps) as (Hr & _).
+    pose proof (perform_swap_cfg _ _ _ _ _ _ _ _ Hps) as Hc.
+    assert (Hfc1 : pm_fee_collector (pm_cfg s1) <> PM) by (rewrite Hc; exact Hfc).
+    rewrite (IH _ _ _ _ _ _ _ d Hfc1 H). rewrite leaves_eff_app, (swap_fee_msgs_eff tf _ _ _ d Hfc), Hr.
+    cbn [denom_of amount_of fst snd]. unfold ind. destruct (String.eqb (so_out o) d), (String.eqb (denom_of prev) d); lia.
+Qed.
+
+(* a route leaves no residue either (fee collector distinct from the pool manager) *)
+Theorem route_tx_excess w sender funds ops mr r ms w' :
+  sender <> PM -> pm_fee_collector (pm_cfg (w_pm w)) <> PM ->
+  run_tx w sender PM (WPm (PmRoute ops mr r ms)) funds = Ok w' ->
+  exists lst out,
+    last (map Some ops) None = Some lst /\
+    forall d, slackP w' d = slackP w d + ind (String.eqb PM (addr_or_default w r sender)) (ind (String.eqb (so_out lst) d) out).
+Proof.
+  intros Hs Hfc H.
+  destruct (leaf_tx_full _ _ _ _ _ _ H) as (wa & w2 & msgs & Hsa & Hsup & Eh & Hfull).
+  destruct (handle_pm_bank _ _ _ _ _ _ Eh) as (s1 & Hx & ->). cbn [pm_execute] in Hx.
+  pose proof (exec_ops_spec _ _ _ _ _ _ _ _ _ Hx) as (lst & fo & amount & outc & fee_msgs & Hl & Hh & Hpay & Hao & Hloop & Hmr & Hm).
+  destruct Hsa as (_ & Htfa & Hval & _ & _ & Hpma & _).
+  assert (Hr : addr_or_default wa r sender = addr_or_default w r sender) by (unfold addr_or_default, addr_valid; rewrite Hval; reflexivity).
+  rewrite Hr in Hm.
+  assert (Hfl : forallb plain_leaf fee_msgs = true) by (eapply route_loop_leaves; [|exact Hloop]; reflexivity).
+  assert (Hall : forallb plain_leaf msgs = true).
+  { subst msgs. rewrite forallb_app, Hfl. destruct (amount_of outc =? 0); reflexivity. }
+  destruct (Hfull Hall) as [(_ & _ & _ & _ & _ & Hpm' & _) Hbal]. cbn [w_pm set_pm] in Hpm'.
+  exists lst, (amount_of outc). split; [exact Hl|].
+  intros d. unfold slackP. rewrite Hpm', (Hbal PM d).
+  assert (Hfca : pm_fee_collector (pm_cfg (w_pm wa)) <> PM) by (rewrite Hpma; exact Hfc).
+  pose proof (route_loop_exact (w_tf_fee w) _ _ _ _ _ _ _ _ d Hfca Hloop) as Hex.
+  cbn [leaves_eff denom_of amount_of fst snd] in Hex.
+  rewrite (route_loop_out_denom _ _ _ _ _ _ _ _ _ Hloop Hl) in Hex.
+  subst msgs. rewrite leaves_eff_app.
+  assert (Hsp : String.eqb PM sender = false) by (apply String.eqb_neq; congruence). rewrite Hsp, String.eqb_refl.
+  rewrite (must_pay_camt _ _ _ d Hpay). rewrite Hpma in Hex.
+  destruct (amount_of outc =? 0) eqn:E0; cbn [leaves_eff leaf_eff plain sm_msg camt denom_of amount_of fst snd];
+    rewrite ?String.eqb_refl; unfold ind in *;
+    destruct (String.eqb PM (addr_or_default w r sender)), (String.eqb (so_out lst) d), (String.eqb (so_in fo) d); lia.
+Qed.
